@@ -47,6 +47,11 @@ type sched struct {
 	budget    string
 	finished  bool
 
+	// PCT-like mode: preempt exactly at these yield counts (ascending), nowhere else
+	pct     int
+	pctAt   [32]int
+	pctNext int
+
 	// spin-mode tape (fixed arrays, inline splitmix)
 	rs      uint64
 	replay  bool
@@ -83,6 +88,25 @@ func (w *W) runTasks() {
 			}
 			s.tin[i] = int32(v)
 			s.tinLen = i + 1
+		}
+	}
+	if d := sc.Sched.PCTDepth; d > 0 {
+		if d > len(s.pctAt) {
+			d = len(s.pctAt)
+		}
+		h := sc.Sched.Horizon
+		if h <= 0 {
+			h = 1000
+		}
+		s.pct = d
+		for i := 0; i < d; i++ {
+			s.pctAt[i] = 1 + s.choose(h, false)
+		}
+		// ascending order (insertion sort on the fixed array)
+		for i := 1; i < d; i++ {
+			for j := i; j > 0 && s.pctAt[j] < s.pctAt[j-1]; j-- {
+				s.pctAt[j], s.pctAt[j-1] = s.pctAt[j-1], s.pctAt[j]
+			}
 		}
 	}
 	s.wake = make([]chan struct{}, n+1)
@@ -245,7 +269,22 @@ func (s *sched) yield(site int, inLog bool) {
 	if others <= 0 {
 		return
 	}
-	v := s.choose(others+1, true)
+	v := 0
+	if s.pct > 0 {
+		hit := false
+		for s.pctNext < s.pct && s.pctAt[s.pctNext] <= s.yields {
+			if s.pctAt[s.pctNext] == s.yields {
+				hit = true
+			}
+			s.pctNext++
+		}
+		if !hit {
+			return
+		}
+		v = 1 + s.choose(others, false)
+	} else {
+		v = s.choose(others+1, true)
+	}
 	if v == 0 {
 		return
 	}
